@@ -87,6 +87,9 @@ type Program struct {
 	mfOnce sync.Once
 	mf     []*ssa.Function
 
+	renamed    map[*types.Func]string // renamed unexported functions: current object -> recorded key
+	byRecorded map[string]*types.Func
+
 	fileOf map[*token.File]*ast.File
 }
 
@@ -215,10 +218,12 @@ func Load(cfgID string, o Opts) (*Program, error) {
 			}
 		}
 	}
+	p.resolveRenames()
 	if o.SSA {
 		prog, _ := ssautil.AllPackages(roots, ssa.InstantiateGenerics)
 		prog.Build()
 		p.SSA = prog
+		progOf.Store(prog, p)
 		p.ssaPkgs = map[*types.Package]*ssa.Package{}
 		for _, sp := range prog.AllPackages() {
 			p.ssaPkgs[sp.Pkg] = sp
@@ -270,9 +275,20 @@ func (p *Program) Obj(rel, name string) types.Object {
 			return nil
 		}
 		obj, _, _ := types.LookupFieldOrMethod(types.NewPointer(tn.Type()), true, pk.Types, name[i+1:])
+		if obj == nil {
+			if f := p.byRecorded[rel+"|"+name]; f != nil {
+				return f // renamed unexported method
+			}
+		}
 		return obj
 	}
-	return pk.Types.Scope().Lookup(name)
+	if o := pk.Types.Scope().Lookup(name); o != nil {
+		return o
+	}
+	if f := p.byRecorded[rel+"|"+name]; f != nil {
+		return f // renamed unexported function
+	}
+	return nil
 }
 
 // Func resolves an ssa function by module-relative package and name
@@ -385,6 +401,11 @@ func FuncName(fn *ssa.Function) string {
 	}
 	s := fn.String()
 	s = strings.ReplaceAll(s, Module+"/", "")
+	if old := recordedSimpleName(fn); old != "" && old != fn.Name() {
+		if i := strings.LastIndex(s, fn.Name()); i >= 0 {
+			s = s[:i] + old
+		}
+	}
 	return s
 }
 
